@@ -21,6 +21,8 @@ type WorldOpts struct {
 	Natives  string // "host" (default) or "none": whether files use host.Mark
 	Cyclic   bool   // add one back edge
 	Conflict bool   // give one package two different package clauses
+	Edges    [][]int // explicit import graph (node 0 is main); overrides MaxPkgs/Cyclic
+	Plain    bool    // full-path layout, one file per package, no extras
 }
 
 type LFileVer struct {
@@ -77,6 +79,9 @@ func GenWorld(r *core.PRNG, o WorldOpts) *LWorld {
 	if o.Cyclic && n < 2 {
 		n = 2
 	}
+	if o.Edges != nil {
+		n = len(o.Edges)
+	}
 	w := &LWorld{Versions: o.Versions, Cyclic: o.Cyclic, Conflict: o.Conflict}
 	for i := 0; i < n; i++ {
 		p := &LPkg{}
@@ -92,7 +97,7 @@ func GenWorld(r *core.PRNG, o WorldOpts) *LWorld {
 		}
 		parts := strings.Split(p.Path, "/")
 		switch k := r.Intn(6); {
-		case i == 0 || k < 3:
+		case i == 0 || k < 3 || o.Plain:
 			p.Dir, p.Layout = p.Path, "full"
 		case k < 5:
 			p.Dir, p.Layout = "vendor/"+p.Path, "vendor"
@@ -107,19 +112,24 @@ func GenWorld(r *core.PRNG, o WorldOpts) *LWorld {
 	}
 	// edges i -> j for i < j; every package but main gets at least one importer
 	edges := make([][]int, n)
-	for j := 1; j < n; j++ {
+	if o.Edges != nil {
+		for i := range o.Edges {
+			edges[i] = append([]int{}, o.Edges[i]...)
+		}
+	}
+	for j := 1; j < n && o.Edges == nil; j++ {
 		i := r.Intn(j)
 		edges[i] = append(edges[i], j)
 	}
 	for i := 0; i < n; i++ {
 		for j := i + 1; j < n; j++ {
-			if r.Chance(1, 4) && !containsInt(edges[i], j) {
+			if o.Edges == nil && r.Chance(1, 4) && !containsInt(edges[i], j) {
 				edges[i] = append(edges[i], j)
 			}
 		}
 		sort.Ints(edges[i])
 	}
-	if o.Cyclic {
+	if o.Cyclic && o.Edges == nil {
 		// one back edge from some package to an ancestor-or-self
 		j := r.Intn(n)
 		i := r.Intn(j + 1)
@@ -140,6 +150,9 @@ func GenWorld(r *core.PRNG, o WorldOpts) *LWorld {
 	}
 	for i, p := range w.Pkgs {
 		nf := 1 + r.Intn(4)
+		if o.Plain {
+			nf = 1
+		}
 		names := r.Perm(len(wFileNames))
 		// distribute this package's imports over its files
 		for f := 0; f < nf; f++ {
@@ -230,7 +243,7 @@ func (w *LWorld) genFile(r *core.PRNG, p *LPkg, lf *LFile, fidx, ver int, deps [
 		q := w.Pkgs[j]
 		if r.Chance(1, 4) {
 			a := fmt.Sprintf("al%d", j)
-			lines = append(lines, fmt.Sprintf("import %s %q", a, q.Path))
+			lines = append(lines, fmt.Sprintf("import ( %s %q )", a, q.Path)) // goatlang accepts an alias only in the block form
 			depAlias[j] = a
 		} else {
 			lines = append(lines, fmt.Sprintf("import %q", q.Path))
